@@ -1154,6 +1154,10 @@ class Module(ABC):
         self.base._init_view()
         self.base._update_local_indices()
 
+        # If the compartment centers had been computed, place the new compartments.
+        if "x" in self.base.nodes.columns:
+            self.base.compute_compartment_centers()
+
     def make_trainable(
         self,
         key: str,
